@@ -98,9 +98,10 @@ def run_many(jobs, workers=12):
 def discharge(run, harness, specs, timeout, replay_fn, env=None, key_prefix=''):
   """specs: list of (func, kind) with kind 'prop' (must be Confirmed) or 'reach' (must be refuted: vacuity twin).
   replay_fn(func, args_dict) -> (bool reproduced, message)."""
-  res = run_many([(harness, f, timeout, env) for f, _ in specs])
-  for (func, kind), r in zip(specs, res):
-    name = '%s:%s' % (harness.replace('.py', ''), func)
+  specs = [tuple(sp) + (None, '')[len(sp) - 2:] for sp in specs]       # (func, kind[, extra env, label])
+  res = run_many([(harness, f, timeout, dict(env or {}, **(ex or {})) or None) for f, _, ex, _ in specs])
+  for (func, kind, _, label), r in zip(specs, res):
+    name = '%s:%s%s' % (harness.replace('.py', ''), func, label or '')
     if kind == 'reach':
       run.witness(name, 'reach', r['status'] == 'refuted', r['message'][:200])
       continue
